@@ -128,7 +128,7 @@ def run(ctx):
         parts.append(("frag%d" % i, [l for l in lines if not l.startswith("TER")]))
         if i % 2 == 1:
             # an incomplete residue (side-chain end not modelled): groups without interaction atoms take other branches
-            parts.append(("frag%d-truncated" % i, pdbgen.truncate_sidechains(rnd, parts[-1][1], rnd.randint(1, 2))))
+            parts.append(("frag%d-truncated" % i, pdbgen.truncate_sidechains(rnd, parts[-1][1], rnd.randint(1, 2), types=(("ASP", "GLU") if i % 4 == 1 else None))))
     for n, t in pdbgen.test_files(["sample-issue-140"] if ctx.quick() else ["sample-issue-140", "3SGB-subset", "1HPX"]):
         parts.append((n, [l for l in pdbgen.lines_of(t) if pdbgen.is_atom(l) and l[17:20] != "HOH"]))
     seps = [30.0, 100.0, 999.0, 1500.0, 9000.0]
@@ -146,7 +146,16 @@ def run(ctx):
         if same_chain:     # keep labels distinct: shift B's numbering
             lb2 = pdbgen.relabel(lb2, renumber_from=2000)
         sep = seps[k % len(seps)]
+        if na.endswith("-truncated") and k % 3 == 1:
+            sep = rnd.choice([30.0, 100.0])
         lb3 = place_far(la2, lb2, sep)
+        if na.endswith("-truncated") and sep <= 100.0:
+            # the complete part around the coordinate origin, the incomplete one away from it: a group left at a default
+            # position (0, 0, 0) would pick up the other part
+            box = pdbgen.bbox(lb3)
+            sh = [-round((lo + hi) / 2.0, 3) for lo, hi in box]
+            la2, lb3 = pdbgen.translate(la2, *sh), pdbgen.translate(lb3, *sh)
+            ctx.count("unions with the complete part centred at the origin")
         (bx0, bx1), _, _ = pdbgen.bbox(lb3)
         if bx1 > 9999.0:
             continue
